@@ -405,6 +405,41 @@ def check(fx, rep, tier):
     # unclamped attacker-chosen constant (a 2^59-iteration copy loop inside one instruction defeats every configured bound).
     from .. import core
 
+    # each bound is the configured number as it stands: the table of fork counters is built with the fork limit, the table of visit
+    # counters with the iteration limit - no arithmetic, no other field
+    PLUMB = (("vm::data::JumpTargets", "maximum_forks_per_fork_target", "fork"), ("vm::data::VisitedOpcodes", "maximum_iterations_per_opcode", "iteration"))
+    n_pl = 0
+    for tyname, field, what in PLUMB:
+        for b in fx.fn_bodies():
+            if not b.get("hir") or b.get("from_expansion") or (b.get("impl_self") or "") == tyname:
+                continue
+            mutated_b = None
+            for c, cps in F.calls(b["hir"]["value"]):
+                cd = F.strip_generics(F.callee_def(c) or "")
+                if not (cd.startswith(tyname + "::") and cd.split("::")[-1] in ("new", "with_limit", "with_capacity_and_limit")):
+                    continue
+                if mutated_b is None:
+                    mutated_b = T.mutated_locals(b["hir"]["value"])
+                args = [T.term(a, T.env_at(cps, c, mutated_b), mutated_b) for a in c["args"]]
+                lim = args[-1] if args else None
+                x = lim
+                while x is not None and x[0] in ("cast",):
+                    x = x[1]
+                n_pl += 1
+                ok = x is not None and x[0] == "field" and x[2] == field
+                # one counter table built inside the constructor of the other from that constructor's own limit parameter
+                if not ok and x is not None and x[0] == "local" and (b.get("impl_self") or "") in [p0 for p0, _, _ in PLUMB] and any(pp.get("local") == x[1] for pp in b["hir"]["params"]):
+                    n_pl -= 1
+                    continue
+                rep.oblige(
+                    ok,
+                    "R03.3",
+                    f"limit-plumbing:{what}:{F.strip_generics(b['def'])}",
+                    F.loc(c["span"]),
+                    f"`{b['def']}` builds the {what} counters with the limit `{T.short(lim)[:70] if lim else '?'}` instead of the configured `{field}` as it stands: the bound that is enforced is not the bound that was configured",
+                    sample={"rule": "R03.3", "table": tyname, "limit": T.short(lim)[:60] if lim else None},
+                )
+    rep.floor("R03.3", n_pl, 2, "constructions of the fork / visit counter tables")
     # the configured bounds are the ones the user set: configuration setters are one-to-one with fields
     from .c18 import check_limit_writers
 
